@@ -39,7 +39,7 @@ rm -f /tmp/seed.$$.*
 # run the checks against /repo with the patch applied
 cd /verif
 RES=""
-if [ "$CONF" = yes ]; then
+if [ "$CONF" = yes ] && [ -z "${NO_REPO:-}" ]; then
   git -C /repo apply "$D/patch.diff" || { echo "patch does not apply to /repo"; exit 2; }
   for id in $P ${EXTRA:-}; do
     ./check "$id" quick > "$D/check_$id.quick.out" 2>&1; rc=$?
